@@ -52,8 +52,7 @@ def run(ctx):
     outs = ev.outcomes(asa)
     rets = [o for o in outs if o.kind == "return"]
     raises = [o for o in outs if o.kind == "raise"]
-    if len(rets) != 1:
-        raise AnalysisError(f"{fq}: expected one normal outcome")
+    rets = generic.sole_outcome(ctx, rets, f"{fq}: expected one normal outcome")
     eff = [strip_sites(e) for e in rets[0].effects]
     envattr = App("attr:envelope", (SELF,))
     ENV = App("attr:value", (envattr,))
@@ -276,8 +275,7 @@ def no_output_on_refusal(ctx, ev):
     R.check("C09-D2 no output on refusal", not tries, "no handler in main can swallow a refusal", mod=main.module, node=main.node,
             function=fq, expected="no try/except around signing and saving", found=f"{len(tries)} try statements")
     outs = [o for o in Evaluator(repo, inline_depth=1).outcomes(main) if o.kind == "return"]
-    if len(outs) != 1:
-        raise AnalysisError(f"{fq}: expected one normal outcome")
+    outs = generic.sole_outcome(ctx, outs, f"{fq}: expected one normal outcome")
     ok = True
     for seq in flatten_effects(outs[0].effects):
         kinds = []
@@ -389,8 +387,7 @@ def recursive_wiring(ctx, ev):
             mod=sg.module, node=sg.node, function=ctx.fq(sg), expected="self.envelope = signer.sign_envelope(...)", found=repr(stored)[:160])
     rs = repo.func(CMD, "RecursiveSigner.recursive_sign")
     ro = [o for o in ev.outcomes(rs) if o.kind == "return"]
-    if len(ro) != 1:
-        raise AnalysisError("recursive_sign: expected one outcome")
+    ro = generic.sole_outcome(ctx, ro, "recursive_sign: expected one outcome")
     o = ro[0]
     dep = App("elem", (A("dependencies"),))
     child = App("meth:recursive_sign", (dep,))
